@@ -107,7 +107,9 @@ class Ctx:
             cfgname = cfg
         self._uniq = getattr(self, "_uniq", 0) + 1
         meta = os.path.join(self.work, "meta-" + tag + "-" + str(self._uniq))
-        cmd = ["java", "-XX:+UseParallelGC", "-Xss16m"]
+        nw = workers or NCPU
+        # several JVMs run side by side (sharded trace validation): keep each one's footprint bounded
+        cmd = ["java", "-Xss16m"] + (["-XX:+UseSerialGC", "-Xmx1500m"] if nw == 1 else ["-XX:+UseParallelGC", "-Xmx8g"])
         if dfs:
             cmd.append("-Dtlc2.tool.queue.IStateQueue=StateDeque")
         cmd += ["-cp", JAR, "tlc2.TLC", "-metadir", meta, "-noGenerateSpecTE",
